@@ -324,6 +324,15 @@ def MOp.parse? : Sexp → Option MOp
   | .list [.atom "bormutp", k] => (key? k).map .borMutP
   | .list [.atom "parbor", d, k] => do pure (.parBor (← nat? d) (← key? k))
   | .list [.atom "parbormut", d, k] => do pure (.parBorMut (← nat? d) (← key? k))
+  -- guards handed out by `try_borrow_value`, `try_borrow_value_mut`, `borrow_value`, `borrow_value_mut`
+  -- (`Ref<T::Target>` / `RefMut<T::Target>` mapped from the guard of `try_borrow` / `try_borrow_mut`): the same
+  -- transitions on the same cell as the plain accessors
+  | .list [.atom "borv", k] => (key? k).map .bor
+  | .list [.atom "borvmut", k] => (key? k).map .borMut
+  | .list [.atom "borvp", k] => (key? k).map .borP
+  | .list [.atom "borvmutp", k] => (key? k).map .borMutP
+  | .list [.atom "parborv", d, k] => do pure (.parBor (← nat? d) (← key? k))
+  | .list [.atom "parborvmut", d, k] => do pure (.parBorMut (← nat? d) (← key? k))
   | .list [.atom "drop", g] => (nat? g).map .drop
   | .list [.atom "rd", g] => (nat? g).map .rd
   | .list [.atom "wr", g, v] => do pure (.wr (← nat? g) (← nat? v))
